@@ -188,7 +188,7 @@ pub fn header_json(h: &RawHeader) -> Value {
 }
 
 /// generic 64-bit table entry -> abstract record (all ints)
-pub fn entry_json(e: u64, cb: u32) -> Value {
+pub fn entry_json(e: u64, cb: u32, bsb: u32) -> Value {
     let cs = 1u64 << cb;
     let b63 = (e >> 63) & 1;
     let b62 = (e >> 62) & 1;
@@ -207,7 +207,8 @@ pub fn entry_json(e: u64, cb: u32) -> Value {
         "cc": small(coff / cs), "cs": small((coff % cs) / 512), "cbo": small(coff % 512),
         "ns": small(ns),
         // out of reach under the reading that applies to this entry
-        "big": if (b62 == 0 && off / cs >= HUGE as u64) || (b62 == 1 && coff / cs >= HUGE as u64) {1} else {0},
+        // (the specification multiplies cluster numbers by blocks per cluster in 32 bits: judge the block number)
+        "big": if (b62 == 0 && (off >> bsb) >= HUGE as u64) || (b62 == 1 && (coff >> bsb) >= HUGE as u64) {1} else {0},
     })
 }
 
@@ -308,14 +309,14 @@ impl Interner {
         // record is never empty
         let mut p = serde_json::Map::new();
         let mut pk = Vec::new();
-        p.insert("n".into(), entry_json(0, g.cb));
+        p.insert("n".into(), entry_json(0, g.cb, g.bsb));
         for (i, ch) in buf.chunks(8).enumerate() {
             if ch.len() < 8 {
                 break;
             }
             let e = u64::from_be_bytes(ch.try_into().unwrap());
             if e != 0 {
-                p.insert(i.to_string(), entry_json(e, g.cb));
+                p.insert(i.to_string(), entry_json(e, g.cb, g.bsb));
                 pk.push(i);
             }
         }
